@@ -1,6 +1,5 @@
 package main
 
 func c11R3(c *Ctx, rule string)        {}
-func contextGuards(c *Ctx, rule string) {}
 func c11R5(c *Ctx, rule string)        {}
 func c11R6(c *Ctx, rule string)        {}
